@@ -3,9 +3,10 @@
 The sub-agent gets ONLY the property text and a scratch worktree of /repo."""
 import json, sys
 pid = sys.argv[1]
+suffix = sys.argv[2] if len(sys.argv) > 2 else ''
 p = [json.loads(l) for l in open('/verif/properties.jsonl') if json.loads(l)['id'] == pid][0]
-wt = f"/tmp/seed-{pid.lower()}"
-print(f"""You are testing how well a semantic property of the Go Kafka client library twmb/franz-go is protected. You work ONLY in your own scratch git worktree of the repository at {wt} (already created; it is a full checkout at the pinned commit). Do not look at, read or write anything under /verif or /repo, and do not use any other directory except {wt} and a temp dir of your own under /tmp/seedtmp-{pid.lower()}.
+wt = f"/tmp/seed-{pid.lower()}{suffix}"
+print(f"""You are testing how well a semantic property of the Go Kafka client library twmb/franz-go is protected. You work ONLY in your own scratch git worktree of the repository at {wt} (already created; it is a full checkout at the pinned commit). Do not look at, read or write anything under /verif or /repo, and do not use any other directory except {wt} and a temp dir of your own under /tmp/seedtmp-{pid.lower()}{suffix}.
 
 The property ({pid}: {p['title']}):
 
